@@ -34,6 +34,23 @@ macro_rules! std_stubs {
         $v fn $name() $body
     };
 }
+/// For the no_ambiguity harnesses: the disjointness test itself is environment
+/// (an arbitrary answer), because inversion lists that went through the ICU
+/// builder are symbolic to CBMC (P18); its soundness is f_is_disjoint_sound's subject.
+pub fn stub_is_disjoint(_a: &CharacterClass, _b: &CharacterClass) -> bool {
+    kani::any()
+}
+macro_rules! nodisjoint_stubs {
+    ($(#[$m:meta])* $v:vis fn $name:ident() $body:block) => {
+        #[kani::proof]
+        #[kani::stub(alloc::fmt::format, stub_format)]
+        #[kani::stub(alloc::alloc::Global::deallocate_impl_runtime, stub_dealloc)]
+        #[kani::stub(ahash::RandomState::new, stub_random_state)]
+        #[kani::stub(crate::character_class::CharacterClass::is_disjoint, stub_is_disjoint)]
+        $(#[$m])*
+        $v fn $name() $body
+    };
+}
 /// Same, but with the REAL ICU case mapping (c11_icu_* harnesses).
 macro_rules! icu_stubs {
     ($(#[$m:meta])* $v:vis fn $name:ident() $body:block) => {
